@@ -113,8 +113,13 @@ def run(prop, seed, tier):
                     continue
                 if W.stiff(want) == 0 and (node.byte_size, node.alignment) != (W.S(want), W.A(want)):
                     fail('isar-layout:' + label, doc, 'layout %s/%s, documented %s/%s' % (node.byte_size, node.alignment, W.S(want), W.A(want)))
-                mod = lib.import_generated(out, 'f%d' % n)
-                cls = getattr(mod, 'X')
+                try:
+                    mod = lib.import_generated(out, 'f%d' % n)
+                    cls = getattr(mod, 'X')
+                except Exception as ex:
+                    # prophyc accepted the schema and wrote a module that cannot be imported: no codec at all
+                    fail('isar-module:' + label, doc, 'the Python module generated from the isar front-end does not import: %r' % ex)
+                    continue
                 for _ in range(3):
                     v = F.gen_value(want, rng)
                     m = cls()
